@@ -25,7 +25,7 @@ ASSUMPTIONS = [
 ]
 REQUIRED_MONITORS = ["physical:gaussian", "physical:bosonic", "physical:fock-pure", "physical:fock-mixed",
                      "purity:gaussian", "purity:fock-pure", "photon-number:gaussian", "photon-number:fock-mixed",
-                     "loss-monotone:gaussian", "trace:fock-pure", "trace:fock-mixed", "physical:fock(ket representation)"]
+                     "loss-monotone:gaussian", "trace:fock-pure", "trace:fock-mixed", "physical:fock(ket representation)", "physical-after-measurement"]
 
 
 def load():
@@ -46,6 +46,35 @@ def gen_case(rng, simrun, backend):
                               length=int(rng.integers(4, 16 if fock else 31)), prefix=not keep_pure)
     if keep_pure:
         spec["cmds"] = simrun.pure_prefix(rng, n) + spec["cmds"]
+    # measurements (sampled and post-selected): the conditional states must be physical as well
+    from ..common import enc
+    if rng.random() < 0.6:
+        measured = set()
+        for _ in range(int(rng.integers(1, 3))):
+            m = int(rng.integers(n))
+            if m in measured:
+                continue  # a second post-selection on a mode just reset to vacuum has probability zero
+            measured.add(m)
+            kinds = ["homodyne", "homodyne-select"]
+            if backend in ("gaussian", "bosonic"):
+                kinds += ["heterodyne", "heterodyne-select"]
+            else:
+                kinds += ["fock", "fock-select"]
+            k = str(rng.choice(kinds))
+            if k.startswith("homodyne"):
+                c = {"op": "MeasureHomodyne", "p": [gen.angle(rng)], "m": [m], "dag": False}
+                if k.endswith("select"):
+                    c["kw"] = {"select": float(rng.normal(0, 0.5 if fock else 1.0))}
+            elif k.startswith("heterodyne"):
+                c = {"op": "MeasureHeterodyne", "p": [], "m": [m], "dag": False}
+                if k.endswith("select"):
+                    c["kw"] = {"select": enc(complex(rng.normal(0, 0.7), rng.normal(0, 0.7)))}
+            else:
+                c = {"op": "MeasureFock", "p": [], "m": [m], "dag": False}
+                if k.endswith("select"):
+                    c["kw"] = {"select": int(rng.integers(0, 2))}
+            pos = int(rng.integers(len(spec["cmds"]) // 2, len(spec["cmds"]) + 1))
+            spec["cmds"].insert(pos, c)
     return {"spec": spec, "hbar": float(rng.choice([2.0, 2.0, 1.0, 0.5])), "backend": backend,
             "cutoff": 10 if n <= 2 else 7}
 
@@ -69,7 +98,8 @@ def run_case(case, rep, env):
             res, eng = runner.run(prog, conf["backend"], {k: v for k, v in conf.items() if k != "backend"})
             if isinstance(res, Exception):
                 nm = type(res).__name__
-                if nm in ("NotApplicableError", "NotImplementedError", "CircuitError"):
+                if nm in ("NotApplicableError", "NotImplementedError", "CircuitError") or \
+                        (nm == "ZeroDivisionError" and "zero probability" in str(res)):
                     rep.observe("rejected:%s:%s" % (obs.lab(), nm))
                 else:
                     rep.violation(backend + ".run", "exception:" + nm, "%s raised %s: %s" % (obs.lab(), nm, str(res)[:200]),
